@@ -20,7 +20,7 @@ from .c01 import validate
 BLANK = {'op': '', 'a': 0, 'b': 0, 'n': 0, 'cn': 0, 'cd': 1, 'lo': 0, 'hi': 0, 'l': 0, 'f': 0, 'res': [],
          'integral': False, 'xs': [], 'ys': []}
 TYPES_Q = [(8, 4), (10, 5), (6, 3)]
-TYPES_T = [(8, 4), (10, 5), (12, 6), (6, 3), (9, 4), (16, 8)]
+TYPES_T = [(8, 4), (10, 5), (12, 6), (6, 3), (9, 4), (12, 5)]      # (wider types overflow TLC integers in the division bound)
 TYPES_WIDE = [(12, 4), (14, 6)]       # l > 2f + 1
 
 
